@@ -52,8 +52,11 @@ TEMPLATES = {
     "multiline": [("asg", "a", '"p = q\nr"'), ("asg", "b", "2"), ("asg", "c", "3"), ("END",)],
     # ... that ends a line in a dash: the default loader's dash-continuation removal joins the lines (finding D50)
     "dash": [("asg", "a", '"x-\ny"'), ("asg", "b", "2"), ("asg", "c", "3"), ("END",)],
+    # parameter names that spell the value keywords (after a gap the name has first been read as a value), keyword values
+    "kwnames": [("asg", "a", "1"), ("asg", "NULL", "2"), ("asg", "b", "TRUE"), ("asg", "True", "3"), ("asg", "false", "NULL"),
+                ("END",)],
 }
-EXPECT_VALUES = {"1": 1, "2": 2, "3": 3, "0": 0, "4": 4, '"q"': "q", "(1,2)": [1, 2], "v": "v", '"p = q\nr"': "p = q r",
+EXPECT_VALUES = {"TRUE": True, "NULL": None, "1": 1, "2": 2, "3": 3, "0": 0, "4": 4, '"q"': "q", "(1,2)": [1, 2], "v": "v", '"p = q\nr"': "p = q r",
                  '"x-\ny"': "xy"}
 
 
